@@ -729,6 +729,18 @@ class Evaluator:
         if isinstance(fn, ast.Attribute) and fn.attr in ("max", "min") \
                 and not n.args and isinstance(fn.value, ast.Subscript):
             return self._reduction_call(env, fn.attr, fn.value)
+        red_of = fn.value if isinstance(fn, ast.Attribute) and fn.attr in (
+            "max", "min") and not n.args else (
+            n.args[0] if isinstance(fn, ast.Name) and fn.id in (
+                "max", "min") and len(n.args) == 1 and not n.keywords
+            else None)
+        if isinstance(red_of, ast.Name):
+            sv = env.vars.get(red_of.id)
+            if isinstance(sv, tuple) and sv and sv[0] == "sliceview":
+                kind = fn.attr if isinstance(fn, ast.Attribute) else fn.id
+                summ = env.stores.get((sv[1], ("summary",)))
+                content = summ if summ is not None else Poly.var(sv[1])
+                return Poly.atom(("slicered", kind, content, sv[2], sv[3]))
         if isinstance(fn, ast.Name) and fn.id in ("max", "min") and len(
                 n.args) == 1 and isinstance(n.args[0], ast.Subscript) \
                 and not n.keywords:
@@ -838,7 +850,33 @@ class Evaluator:
             env = self.stmt(env, s)
         return env
 
+    def _slice_view(self, env: Env, s: ast.stmt) -> bool:
+        """`v = a[lo:hi]` (a view that is only reduced later): remember the
+        array and the bounds as they are now."""
+        val = getattr(s, "value", None)
+        tgs = s.targets if isinstance(s, ast.Assign) else [
+            getattr(s, "target", None)]
+        if not (len(tgs) == 1 and isinstance(tgs[0], ast.Name)
+                and isinstance(val, ast.Subscript) and isinstance(
+                    val.slice, ast.Slice) and val.slice.step is None
+                and isinstance(val.value, (ast.Name, ast.Attribute))):
+            return False
+        try:
+            arr = self._arr(env, val.value)
+            lo = self.num(env, val.slice.lower) \
+                if val.slice.lower is not None else Poly.const(0)
+            hi = self.num(env, val.slice.upper) \
+                if val.slice.upper is not None else Poly.atom(
+                    ("app", "len", (Poly.var(arr),)))
+        except Unsupported:
+            return False
+        env.vars[tgs[0].id] = ("sliceview", arr, lo, hi)
+        return True
+
     def stmt(self, env: Env, s: ast.stmt) -> Env:
+        if isinstance(s, (ast.Assign, ast.AnnAssign)) and \
+                self._slice_view(env, s):
+            return env
         if isinstance(s, ast.Assign):
             v = self.expr(env, s.value)
             for t in s.targets:
